@@ -52,7 +52,8 @@ def main(pid):
     chk = Check(pid, TECH, need_bin=True)
     eng = chk.eng
     install_stubs(eng)
-    eng.select_orders = 'all' if chk.thorough() else 'first'
+    # quick: the written order of the select! arms plus ONE evaluation per path in another order; thorough: every order everywhere
+    eng.select_orders = 'all' if chk.thorough() else 'budget'
     SCRIPTS = scripts(chk.thorough())
     CONFIGS = configs(chk.thorough())
     MAX_WAKEUPS = 12 if chk.thorough() else 10
@@ -82,6 +83,9 @@ def main(pid):
         def run():
             w = JobWorld(eng, pipe0, others0, adv_budget=(1 if top_level == 0 else 0), allow_steal=(top_level == 0),
                          max_wakeups=MAX_WAKEUPS)
+            # one select! evaluation in another arm order per path: in the quick tier only where a token is waited for without a
+            # running child (the scripts in which a timer expiry and a token arrival can coincide), and only for C09
+            w.select_budget = 1 if (chk.thorough() or (pid == 'C09' and sname == 'locked-then-cheat')) else 0
             eng.world = w
             st['w'] = w
             st['hang'] = None
@@ -720,5 +724,32 @@ def make_replay(rep):
             else:
                 good = False
             ok_all = ok_all and good
+        if not ok_all and c['kind'] == 'panic':
+            # a wake-up in which a timer expiry and a readable descriptor coincide needs the process to be descheduled between
+            # select() returning and the futures being polled, and then the pseudo-random arm order of futures::select! to pick the
+            # timer first: inject the delay (LD_PRELOAD shim around select) and retry a few times
+            import subprocess
+            from lib import prep as _prep
+            shim = os.path.join(_prep.SCRATCH_ROOT, 'selshim-%d.so' % os.getpid())
+            os.makedirs(_prep.SCRATCH_ROOT, exist_ok=True)
+            r = subprocess.run(['cc', '-shared', '-fPIC', '-O1', '-o', shim, os.path.join(_prep.VERIF, 'replay', 'crashshim.c'), '-ldl'],
+                               stdout=subprocess.PIPE, stderr=subprocess.STDOUT)
+            if r.returncode == 0:
+                try:
+                    for attempt in range(1, 25):
+                        payload, raw, rc = rep.run('jobserver', 'script_batch', [line], release=False, timeout=600,
+                                                   env={'LD_PRELOAD': shim, 'VERIF_SELECT_DELAY_MS': '40',
+                                                        'VERIF_SELECT_SEED_SKIP': str(attempt - 1)})
+                        if len(payload) != 1:
+                            break
+                        d = parse_native(payload[0])
+                        if d['status'] == 'PANIC' and c['needle'] in d['result']:
+                            return True, ('scenario `%s` with the process descheduled for 40 ms after each select() (timer expiry and token '
+                                          'arrival in one wake-up), select! seed #%d (its arm order is pseudo-random per thread) -> %s' % (line, attempt, payload[0]))
+                finally:
+                    try:
+                        os.unlink(shim)
+                    except OSError:
+                        pass
         return ok_all, 'scenario `%s` -> dev: %s | release: %s' % (line, outs[0], outs[1])
     return replay
